@@ -273,7 +273,9 @@ Proof.
     rewrite roll_rows_nth by (rewrite ?(inv_len_rows _ _ _ I), ?(inv_len_xs _ _ _ I); exact Hs).
     assert (Hr : rsteps (cdt c) e = sdelay (cdt c) e).
     { rewrite orb_false_r in Hsib. unfold sdelay, is_delayed in *.
-      destruct (ed e) eqn:Ed; cbn [orb] in Hsib; [apply Nat.eqb_eq, Hsib | apply Nat.eqb_eq, Hsib | unfold rsteps; rewrite Ed; reflexivity]. }
+      destruct (ed e) eqn:Ed; cbn [orb] in Hsib; [apply Nat.eqb_eq, Hsib | apply Nat.eqb_eq, Hsib |].
+      unfold rsteps, neglect. rewrite Ed. apply Nat.leb_le in Hge2.
+      destruct (Nat.leb_spec (steps_of d (cdt c)) 1); [lia|]. rewrite andb_false_r. reflexivity. }
     rewrite <- Hr. unfold call.
     destruct (rsteps (cdt c) e) as [|j] eqn:Ej.
     + cbn [nth]. apply Hhd.
@@ -284,7 +286,8 @@ Proof.
     assert (Hz : sdelay (cdt c) e = 0%nat).
     { unfold sdelay. destruct (ed e) as [| |d] eqn:Ed; try reflexivity.
       exfalso. unfold gadd in Ga. apply Nat.ltb_ge in Ga.
-      unfold rsteps in Hle. rewrite Ed in Hle. apply Nat.leb_le in Hge2. lia. }
+      unfold rsteps, neglect in Hle. rewrite Ed in Hle. apply Nat.leb_le in Hge2.
+      destruct (Nat.leb_spec (steps_of d (cdt c)) 1); [lia|]. rewrite andb_false_r in Hle. lia. }
     rewrite Hz. apply Hhd.
 Qed.
 
